@@ -74,3 +74,61 @@ Proof.
   - exact HG.
   - exact Hev.
 Qed.
+
+(* ---- the server request receivers (no EOF latch): a request handler's yielded timeout never loses a request.
+   The timeout of `yield t` is backend.timeout(t) around receiver.next(): a cancellation request of the LTS. *)
+Lemma request_receiver_no_loss_proof :
+  forall (P : Type) (sep : bytes) (limit : nat) (keep_end : bool) (dec : decoder P) (bufsize : nat),
+    sep <> [] -> 0 < bufsize ->
+    forall ls,
+      let F := ru_framer sep limit keep_end dec in
+      let es := erun (copy_smachine F bufsize) false false (einit (cinit F)) ls in
+      safe sep limit (delivered (sk es)) ->
+      (exists rest, fst (spec_events sep keep_end dec (delivered (sk es))) = events es ++ rest) /\
+      (einrecv es = false ->
+       forall r, nth_error (fst (spec_events sep keep_end dec (returned (sk es)))) (length (events es)) = Some r ->
+         events (estep (copy_smachine F bufsize) false false es ERecvPacket) = events es ++ [r]).
+Proof.
+  intros P sep limit keep_end dec bufsize Hsep Hb ls F es HG.
+  split; [exact (recv_packet_no_loss_read_until_proof P sep limit keep_end dec bufsize Hsep Hb false ls HG)|].
+  pose proof (ru_consumer_ok_rel sep limit keep_end dec bufsize Hsep Hb) as OK0.
+  assert (OK : consumer_ok_rel (to_machine (copy_smachine F bufsize)) (ru_spec sep keep_end dec)
+                               (ru_G sep limit) (ru_R sep limit keep_end dec) (ru_D sep limit keep_end dec)).
+  { eapply consumer_ok_rel_ext; [| |exact OK0]; [intro c; reflexivity | intros c a; apply copy_machine_split]. }
+  intros Hin r Hnth.
+  apply (pending_event_is_delivered_proof (copy_smachine F bufsize) false false _ _ _ _ OK) with (c0 := cinit F); auto.
+  - intros c d c1 room HD Hroom. simpl in Hroom. inversion Hroom; subst. exact HD.
+  - apply ru_R_init. exact Hsep.
+Qed.
+
+Lemma buffered_request_receiver_no_loss_proof :
+  forall (P : Type) (sep : bytes) (limit : nat) (keep_end : bool) (dec : decoder P) (sizehint : nat),
+    sep <> [] -> length sep + 1 <= limit ->
+    forall ls,
+      let F := bru_framer sep limit keep_end dec in
+      let es := erun (buf_smachine F sizehint) true false (einit (bcinit F)) ls in
+      safe sep (limit - 1 - length sep) (delivered (sk es)) ->
+      (exists rest, fst (spec_events sep keep_end dec (delivered (sk es))) = events es ++ rest) /\
+      (einrecv es = false ->
+       forall r, nth_error (fst (spec_events sep keep_end dec (returned (sk es)))) (length (events es)) = Some r ->
+         events (estep (buf_smachine F sizehint) true false es ERecvPacket) = events es ++ [r]).
+Proof.
+  intros P sep limit keep_end dec sizehint Hsep Hlim ls F es HG.
+  split; [exact (recv_packet_no_loss_buffered_read_until_proof P sep limit keep_end dec sizehint Hsep Hlim false ls HG)|].
+  pose proof (bru_consumer_ok_rel sep limit keep_end dec sizehint Hsep Hlim) as OK0.
+  assert (OK : consumer_ok_rel (to_machine (buf_smachine F sizehint)) (bru_spec sep keep_end dec)
+                 (bru_G sep limit) (bru_R sep limit keep_end dec) (bru_D sep limit keep_end dec)).
+  { eapply consumer_ok_rel_ext'; [| |exact OK0]; [intro c; reflexivity | intros c a; apply buf_machine_split]. }
+  assert (Hre : forall c d c1 room, bru_D sep limit keep_end dec c d -> sroom (buf_smachine F sizehint) c = Some (c1, room) ->
+            sroom (buf_smachine F sizehint) c1 = Some (c1, room) /\
+            exists c2, sdrain (buf_smachine F sizehint) c1 = (c2, RStop) /\
+                       sroom (buf_smachine F sizehint) c2 = Some (c1, room) /\
+                       sdrain (buf_smachine F sizehint) c2 = (c2, RStop)).
+  { intros c d c1 room (d1 & w & _ & _ & Hrep) Hroom.
+    apply (buf_reexport P F sizehint c c1 room); [| |exact Hroom]; inversion Hrep; subst; reflexivity. }
+  intros Hin r Hnth.
+  apply (pending_event_is_delivered_proof (buf_smachine F sizehint) true false _ _ _ _
+           (ok' (buf_smachine F sizehint) _ _ _ _ OK Hre) (D'_sroom (buf_smachine F sizehint) _ Hre))
+    with (c0 := bcinit F); auto.
+  left. apply bru_R_init. exact Hsep.
+Qed.
